@@ -1003,6 +1003,24 @@ def oracle_wire(ctx, stream, case, pre_refs, pre_store, obs, post_refs, post_mis
                                 f"(handler: {obs['raised']}, statuses: {obs['parsed']})", cls)
         if holds(post_refs, new, name) and not same(name, new):
             applied.append(name)
+    # no report-status negotiated: nothing can be reported per ref, so "success" is that the session ended without an
+    # error; every command that names the current value of a ref, an object the server has or was sent, and that no hook
+    # or ref-container failure stands against, must then have taken effect (under atomic: when all commands are such)
+    if not observable and obs["raised"] is None and not case.get("pre") and obs["unpack_exc"] is None and pk["variant"] == "ok":
+        hooks = {k.encode("latin-1") for k in case.get("hooks", {})}
+
+        def clean(old, new, name):
+            cur = resolve(pre_refs, name)[1] or ZERO40
+            if new == ZERO40 and (pre_refs.get(name) or b"").startswith(SYMREF):
+                return False          # deleting a symbolic ref compares its raw content: refused
+            return (cur == old and name not in faults and name not in hooks and len(old) == 40
+                    and (new == ZERO40 or (len(new) == 40 and (new in pre_store or new in sent))))
+        allclean = all(clean(*c) for c in cmds)
+        for old, new, name in cmds:
+            if clean(old, new, name) and ("atomic" not in caps or allclean) and not holds(post_refs, new, name):
+                ctx.oracle_fail(stream, brief, f"{name!r}: the session (capabilities {sorted(caps)}, no report-status) ended without any error, "
+                                f"but the ref does not hold the requested {None if new == ZERO40 else new!r} (it holds {post_refs.get(name)!r})",
+                                "wire-silent-session-not-applied")
     if "atomic" in caps:
         all_hold = all(holds(post_refs, new, n) for _, new, n in cmds)
         none_changed = post_refs == pre_refs
@@ -1879,6 +1897,7 @@ def run(ctx: core.Ctx):
     _stream_local(ctx, sd, ex, ctx.budget(500))
     _stream_parser(ctx, ctx.budget(1500))
     _stream_symref(ctx, sd, ex, ctx.budget(300), ctx.budget(150), ctx.budget(15))
+    _stream_caps(ctx, sd, ctx.budget(25, mult=4), full=ctx.thorough)
     _stream_e2e(ctx, sd, ctx.budget(40), ctx.budget(8, mult=6))
     _stream_git_push(ctx, sd, ctx.budget(5, mult=8))
     ctx.notes.append("e2e.git-server checks only what the dulwich client reports against the refs C git's receive-pack left behind; "
@@ -1917,6 +1936,10 @@ def search(ctx: core.Ctx):
     ex = _extract_or_fallback(ctx)
     sd = ServerDir(ctx.scratch / "srv-search")
     lines, metas = [], []
+    # sessions with capability subsets (no report-status in particular), in process and over TCP
+    _stream_caps(ctx, sd, ctx.budget(40, mult=3), full=True, stream="search.wire.caps", tcp_every=2)
+    if ctx.oracle_failures:
+        return
     seeds = [d["case"] for d in ctx.disagreements if isinstance(d.get("case"), dict) and d["case"].get("path") == "wire"][:8]
     seeds += [expand(c) for c in FIXED_WIRE]
     for sc in seeds:
@@ -2452,3 +2475,209 @@ def _stream_race(ctx, scenarios, bound, max_runs, stream="race", nworkers=6):
             ctx.oracle_fail(stream, {"case": {"path": "race", "sc": sc, "schedule": f["run"]["choices"]}, "run": f["run"]},
                             f"{sc['name']}: {what}", cls)
     ctx.extra_cov.setdefault("race", {})[stream] = {"scenarios": len(scenarios), "schedules": total, "preemption_bound": bound, "max_runs_per_scenario": max_runs}
+
+
+# ------------------------------------------------------------------------------------------------
+# sessions in which the client negotiates a SUBSET of the capabilities — in particular no report-status: with no
+# status report to read, "success" is that the session ended without an error; the refs must then hold what was asked,
+# and what the server does must not depend on which report capabilities (report-status, side-band-64k, quiet,
+# ofs-delta) were negotiated.  In-process handler and TCP (dulwich's TCPGitServer, hand-written pkt-line client).
+
+REPORT_CAPS = ["report-status", "side-band-64k", "quiet", "ofs-delta"]
+
+
+def _effect(post_refs: dict, post_store) -> str:
+    return ",".join(f"{k.decode('latin-1')}={v.decode('latin-1')}" for k, v in sorted(post_refs.items())) + " | " + ",".join(sorted(i.decode() for i in post_store))
+
+
+def run_wire_effect(ctx, sd: ServerDir, case: dict, stream: str, lines=None, metas=None):
+    """run one wire case (oracle included) and return (obs, effect string)"""
+    tmp_l, tmp_m = ([], []) if lines is None else (lines, metas)
+    obs, pre, post = run_wire_case(ctx, sd, case, stream, tmp_l, tmp_m)
+    post_store = tmp_m[-1][4]
+    return obs, _effect(post, post_store)
+
+
+def gen_caps_base(rng) -> dict:
+    """a wire case without hooks / injected faults (they cannot be installed in a TCP server), well-formed pack"""
+    for _ in range(50):
+        c = gen_wire_case(rng) if rng.random() < 0.7 else gen_symref_wire_case(rng)
+        if c.get("hooks") or c.get("pre") or "key" in c.get("faults", {}).values() or c.get("pack", {}).get("variant", "ok") != "ok":
+            continue
+        if any(cap not in CAPS for cap in c["caps"]):
+            continue
+        return c
+    return c
+
+
+FIXED_CAPS_BASES = [
+    {"path": "wire", "state": {"refs": {"refs/heads/m": "@2"}}, "cmds": [["@2", "@4", "refs/heads/m"], ["@z", "@5", "refs/tags/t"]],
+     "caps": [], "pack": {"idx": [4, 5], "variant": "ok"}},
+    {"path": "wire", "state": {"refs": {"refs/heads/m": "@2", "refs/heads/a": "@1"}}, "cmds": [["@2", "@z", "refs/heads/m"], ["@1", "@3", "refs/heads/a"]],
+     "caps": []},
+    {"path": "wire", "state": {"refs": {"refs/heads/m": "@2"}}, "cmds": [["@2", "@3", "refs/heads/m"]], "caps": []},
+    {"path": "wire", "state": {"refs": {"refs/heads/m": "@2"}}, "cmds": [["@1", "@3", "refs/heads/m"], ["@z", "@1", "refs/heads/x"]], "caps": []},
+]
+
+
+def cap_subsets(rng, full: bool) -> list:
+    subs = []
+    names = REPORT_CAPS + ["delete-refs"]
+    if full:
+        for mask in range(1 << len(names)):
+            subs.append([c for i, c in enumerate(names) if mask >> i & 1])
+    else:
+        subs = [[], ["report-status"], ["side-band-64k"], ["quiet"], ["ofs-delta", "quiet"], ["report-status", "side-band-64k"],
+                ["report-status", "quiet", "ofs-delta", "delete-refs"], ["side-band-64k", "quiet", "ofs-delta"], REPORT_CAPS + ["delete-refs"]]
+        subs += [[c for c in names if rng.random() < 0.5] for _ in range(3)]
+    return subs
+
+
+class _TcpServer:
+    """dulwich's own TCPGitServer on a free local port, serving the scratch directory; handler exceptions are recorded"""
+
+    def __init__(self, root: Path):
+        import threading
+        from dulwich.server import FileSystemBackend, TCPGitServer
+        outer = self
+        self.errors = []
+
+        class Srv(TCPGitServer):
+            def handle_error(self, request, client_address):
+                import sys as _s
+                outer.errors.append(_s.exc_info()[1])
+        self.srv = Srv(FileSystemBackend(str(root)), "127.0.0.1", 0)
+        self.t = threading.Thread(target=self.srv.serve_forever, kwargs={"poll_interval": 0.05}, daemon=True)
+        self.t.start()
+
+    def close(self):
+        self.srv.shutdown()
+        self.srv.server_close()
+        self.t.join(10)
+
+
+def tcp_push(tcp: _TcpServer, sd: ServerDir, case: dict) -> dict:
+    """a hand-written pkt-line client over TCP: request line, read the advertisement, commands with exactly the
+    capabilities of the case, the pack, half-close, read to EOF"""
+    import socket
+    from dulwich import client as C
+    from dulwich.errors import GitProtocolError
+    from dulwich.protocol import Protocol, pkt_line
+    cmds = [(c[0].encode(), c[1].encode(), c[2].encode("latin-1")) for c in case["cmds"]]
+    caps = [c.encode() for c in case["caps"]]
+    tcp.errors.clear()
+    sock = socket.create_connection(tcp.srv.server_address, timeout=30)
+    obs = {"unpack_exc": None, "unpack_called": None, "raised": None, "pkts": None, "parsed": None, "leftover": 0}
+    data = b""
+    try:
+        rfile = sock.makefile("rb")
+        sock.sendall(pkt_line(b"git-receive-pack " + str(sd.path).encode() + b"\0host=localhost\0"))
+        adv = list(Protocol(rfile.read, lambda b_: None).read_pkt_seq())
+        obs["advertised"] = adv[0].split(b"\0", 1)[1].split() if adv and b"\0" in adv[0] else []
+        req = io.BytesIO()
+        first = True
+        for old, new, name in cmds:
+            line = old + b" " + new + b" " + name
+            if first and caps:
+                line += b"\0" + b" ".join(caps)
+            first = False
+            req.write(pkt_line(line))
+        req.write(pkt_line(None))
+        pk = case.get("pack", {"idx": [], "variant": "ok"})
+        if any(new != ZERO40 for _, new, _ in cmds):      # like a real client: no pack when only deletions are sent
+            req.write(pack_bytes(pk["idx"], pk["variant"]))
+        try:
+            sock.sendall(req.getvalue())
+            sock.shutdown(socket.SHUT_WR)
+            data = rfile.read()
+        except OSError as e:        # the server closed the connection before the request was complete / with data unread
+            obs["transport_error"] = type(e).__name__
+    finally:
+        sock.close()
+    # socketserver calls handle_error() before it closes the connection, so a handler exception is recorded by the time EOF is read
+    if tcp.errors:
+        e = tcp.errors[0]
+        obs["raised"] = ("protocol" if isinstance(e, GitProtocolError) else "ref-error", type(e).__name__, str(e)[:120])
+    elif obs.get("transport_error"):
+        obs["raised"] = ("transport", obs["transport_error"], "the server closed the connection early")
+    if obs["raised"] is None and b"report-status" in caps and cmds:
+        f = io.BytesIO(data)
+        p = Protocol(f.read, lambda b_: None)
+        cl = C.LocalGitClient()
+        cl.protocol_version = 0
+        cl._report_status_parser = C.ReportStatusParser()
+        try:
+            st = cl._handle_receive_pack_tail(p, set(caps))
+            obs["parsed"] = ("ok", {bytes(k): v for k, v in st.items()})
+        except C.SendPackError:
+            obs["parsed"] = ("err", "sendpack")
+        except GitProtocolError as e:
+            obs["parsed"] = ("err", "protocol:" + type(e).__name__)
+        except ValueError:
+            obs["parsed"] = ("err", "value")
+    elif data and obs["raised"] is None:
+        # no report was asked for: anything the server still sends must not be an error packet
+        if b"ERR " in data[:64]:
+            obs["raised"] = ("protocol", "ERR-pkt", data[:80].decode("latin-1"))
+    obs["bytes_after_request"] = len(data)
+    return obs
+
+
+def run_tcp_case(ctx, tcp: _TcpServer, sd: ServerDir, case: dict, stream: str):
+    sd.reset_state(case["state"])
+    hd = uses_head(case)
+    repo = sd.open()
+    try:
+        pre_refs = read_refs(repo, hd)
+        cands = candidate_ids(case)
+        pre_store = {i for i in cands if in_store(repo, i)}
+    finally:
+        repo.close()
+    obs = tcp_push(tcp, sd, case)
+    repo = sd.open()
+    try:
+        post_refs = read_refs(repo, hd)
+        post_store = {i for i in cands if in_store(repo, i)}
+        post_missing = {n: v for n, v in post_refs.items() if not v.startswith(SYMREF) and not in_store(repo, v)}
+    finally:
+        repo.close()
+    ctx.count(stream, json.dumps(case, sort_keys=True), True, "report" if "report-status" in case["caps"] else "silent")
+    oracle_wire(ctx, stream, case, pre_refs, pre_store, obs, post_refs, post_missing)
+    return obs, _effect(post_refs, post_store)
+
+
+def _stream_caps(ctx, sd: ServerDir, n_bases: int, full: bool, stream="wire.caps", tcp_every=3):
+    """every base case under many capability subsets: same server-side effect within {atomic on} and within {atomic off},
+    over the in-process transport and (every few) over TCP; the per-session oracle runs on each of them"""
+    rng = ctx.rng
+    bases = [expand(c) for c in FIXED_CAPS_BASES] + [gen_caps_base(rng) for _ in range(n_bases)]
+    tcp = _TcpServer(ctx.scratch)
+    lines, metas = [], []
+    try:
+        for bi, base in enumerate(bases):
+            base = json.loads(json.dumps(base))
+            base.pop("tags", None)
+            seen = {}
+            for atomic in (False, True):
+                for k, sub in enumerate(cap_subsets(rng, full)):
+                    case = json.loads(json.dumps(base))
+                    case["caps"] = list(sub) + (["atomic"] if atomic else [])
+                    case["tags"] = [("atomic" if atomic else "plain") + ":" + ("report" if "report-status" in sub else "silent")]
+                    obs, eff = run_wire_effect(ctx, sd, case, stream, lines, metas)
+                    ref = seen.setdefault(atomic, (case["caps"], eff))
+                    if eff != ref[1]:
+                        ctx.oracle_fail(stream, {"case": case, "other_caps": ref[0], "effect": eff, "other_effect": ref[1]},
+                                        f"the same commands leave the server in a different state with capabilities {case['caps']} than with {ref[0]}",
+                                        "wire-effect-depends-on-report-capabilities")
+                    if (bi * 31 + k) % tcp_every == 0:
+                        tobs, teff = run_tcp_case(ctx, tcp, sd, case, stream.replace("wire", "tcp"))
+                        if teff != eff:
+                            ctx.oracle_fail(stream.replace("wire", "tcp"), {"case": case, "effect": teff, "inprocess_effect": eff},
+                                            f"over TCP the same session ({case['caps']}) leaves the server in a different state than in process",
+                                            "tcp-effect-differs-from-in-process")
+            if len(lines) > 400:
+                compare_wire_batch(ctx, lines, metas)
+                lines, metas = [], []
+        compare_wire_batch(ctx, lines, metas)
+    finally:
+        tcp.close()
